@@ -16,6 +16,7 @@ PARTS = ['a', 'b', 'Work', 'x y', 'st*r', 'p%c', 'q"t', 'b\\s', 'l\nf', 'a&b',
          # names a directory-backed store uses for itself, and names that a
          # line-oriented control file may not give back as written
          'cur', 'new', 'tmp', 'a ', ' b', 'dovecot-uidlist', 'subscriptions']
+STORE_NAMES = ('cur', 'new', 'tmp', 'dovecot-uidlist', 'subscriptions')
 PATTERNS = ['*', '%', '%/%', '*/*', 'a*', 'a%', '*b', '%b', 'a/*', 'a/%',
             'INBOX', 'inbox', 'in*', 'I%', '*é*', '%日本', 'Work/%/%', '**',
             '%%', '*%', '%*', 'a/b', 'st*r', 'st\\*r', 'x y', '*\n*', 'l%f',
@@ -130,7 +131,10 @@ class NsModel:
         if self.backend == 'maildir':
             # directory-backed names: '.' is the Maildir++ separator, CR/LF
             # cannot be kept in the subscriptions file
-            return any('.' in p or '\r' in p or '\n' in p for p in parts)
+            # cur, new and tmp are the store's own directories in the fs
+            # layout, and its control files sit next to the sub-folders
+            return any('.' in p or '\r' in p or '\n' in p
+                       or p in STORE_NAMES for p in parts)
         return False
 
     @staticmethod
